@@ -222,9 +222,7 @@ htp_status_t htp_parse_response_header_generic(htp_connp_t *connp, htp_header_t 
         }
     }
     // Ignore LWS after field-content.
-    prev = value_end - 1;
-    while ((prev > value_start) && (htp_is_lws(data[prev]))) {
-        prev--;
+    while ((value_end > value_start + 1) && (htp_is_lws(data[value_end - 1]))) {
         value_end--;
     }
 
